@@ -54,6 +54,7 @@ type sends struct {
 
 	chanOps, exits, stopChecks     []posItem
 	capacities, starts, startSteps []string
+	stopSeq                        []string
 }
 
 func init() {
@@ -125,6 +126,7 @@ func emitSends(repo string) (string, error) {
 	}
 	if start := decls["Start"]; start != nil {
 		s.startFacts(start, fields)
+		s.stopGoroutine(start)
 	}
 	if len(s.errs) > 0 {
 		return "", fmt.Errorf("%s", strings.Join(s.errs, "\n"))
@@ -605,6 +607,40 @@ func (s *sends) startFacts(fd *ast.FuncDecl, fields []string) {
 }
 
 // quote renders a Lean string literal.
+// stopGoroutine records, in source order, the top-level statements of the goroutine in Start that turns a
+// stop request into the broker's stop state (the function literal that receives from `stop`): the stop flags
+// must be published before the broadcast on chStop, because everything but the idle scanner learns about a
+// stop from the flags only.
+func (s *sends) stopGoroutine(fd *ast.FuncDecl) {
+	var lit *ast.FuncLit
+	ast.Inspect(fd.Body, func(n ast.Node) bool {
+		fl, ok := n.(*ast.FuncLit)
+		if !ok || lit != nil {
+			return true
+		}
+		found := false
+		ast.Inspect(fl.Body, func(m ast.Node) bool {
+			if u, ok := m.(*ast.UnaryExpr); ok && u.Op == token.ARROW {
+				if id, ok := unparen(u.X).(*ast.Ident); ok && id.Name == "stop" {
+					found = true
+				}
+			}
+			return true
+		})
+		if found {
+			lit = fl
+		}
+		return true
+	})
+	if lit == nil {
+		s.failf(fd.Pos(), "Start: no goroutine receiving from the stop channel found")
+		return
+	}
+	for _, st := range lit.Body.List {
+		s.stopSeq = append(s.stopSeq, quote(strings.Join(strings.Fields(strings.Split(s.src(st), "{")[0]), " ")))
+	}
+}
+
 func quote(str string) string {
 	return `"` + strings.NewReplacer(`\`, `\\`, `"`, `\"`).Replace(str) + `"`
 }
@@ -632,6 +668,7 @@ func (s *sends) render() string {
 	list("`make(chan …)` calls in `Start`: channel, capacity expression (\"0\" = unbuffered)", "capacities", "List (String × String)", s.capacities)
 	list("`start(broker.startX, &wgY, n)` calls in `Start`, in source order", "stageStarts", "List StageStart", s.starts)
 	list("the `wgX.Wait()` / `close(broker.chY)` statements of `Start` after the stages were started, in order", "startSequence", "List StartStep", s.startSteps)
+	list("the top-level statements (text up to the first brace) of the goroutine in `Start` that receives the stop request, in order", "stopGoroutine", "List String", s.stopSeq)
 	list("every `return` / `break` of the choreography functions with its enclosing control constructs", "exits", "List ExitStmt", ordered(s.exits))
 	list("every call of a stop predicate (`broker.shouldStopNow()` / `broker.shouldStop()`), or use of one as a\n"+
 		"    function value (argument of sendCh/recvCh), in the choreography functions, in source order: (function, predicate, context)\n"+
